@@ -444,6 +444,36 @@ func init() {
 		tt := fn.Signature.Results().At(0).Type().Underlying().(*types.Chan).Elem()
 		return &Chan{Cap: 1, ET: tt, Buf: []Value{in.zero(tt)}}
 	})
+	// context.WithValue: the real constructor minus its reflection-based "key is comparable" check
+	reg("context.WithValue", func(in *Interp, caller *frame, pos token.Pos, fn *ssa.Function, args []Value) Value {
+		parent, _ := args[0].(Iface)
+		if parent.T == nil {
+			panic(in.goPanicStr(pos, "cannot create context from nil parent"))
+		}
+		if k, _ := args[1].(Iface); k.T == nil {
+			panic(in.goPanicStr(pos, "nil key"))
+		}
+		pkg := in.prog.ImportedPackage("context")
+		vt := pkg.Type("valueCtx")
+		if vt == nil {
+			unsupported("context.valueCtx not found")
+		}
+		st := vt.Type().Underlying().(*types.Struct)
+		z := in.zero(vt.Type()).(Struct)
+		for i := 0; i < st.NumFields(); i++ {
+			switch st.Field(i).Name() {
+			case "Context":
+				z[i] = args[0]
+			case "key":
+				z[i] = args[1]
+			case "val":
+				z[i] = args[2]
+			}
+		}
+		c := new(Value)
+		*c = z
+		return Iface{T: types.NewPointer(vt.Type()), V: Ptr{c}}
+	})
 	reg("time.Sleep", func(in *Interp, caller *frame, pos token.Pos, fn *ssa.Function, args []Value) Value {
 		in.yield()
 		return nil
